@@ -12,13 +12,10 @@ From Ka Require Import Model.Parser Model.Printer Proofs.ParserProofs.
 Local Open Scope nat_scope.
 
 (* ------------------------------------------------------------------ the proved fragment *)
-Fixpoint covered (s : sst) : bool :=
-  match s with
-  | SNum _ | SVar _ => true
-  | SParen e | SSign _ e | SFact e => covered e
-  | SBin _ a b => covered a && covered b
-  | _ => false
-  end.
+(* All stages are proved: the fragment is the whole surface syntax, restricted only by the
+   well-formedness no printer can repair ([wf], Model/Printer.v: a unit list is never empty, a
+   comprehension has at least one clause). *)
+Notation covered := wf (only parsing).
 
 (* the text of s (operands unparenthesised as the mode decides) ends in a unit signature *)
 Definition ends_u (m : mode) (s : sst) : bool :=
@@ -49,6 +46,16 @@ Proof.
   - intros H. apply orb_false_iff in H. destruct H as [_ H]. exact H.
   - intros H. apply negb_false_iff in H. apply Nat.eqb_eq in H.
     destruct s; simpl in *; try reflexivity; lia.
+Qed.
+
+Lemma ends_u_pow_right m a b :
+  wrap m 5 false b = false -> ends_u m b = true -> ends_u m (SBin BPow a b) = true.
+Proof.
+  destruct m; simpl; intros W EU.
+  - apply orb_false_iff in W. destruct W as [W _]. apply negb_false_iff, Nat.leb_le in W.
+    destruct b; simpl in *; try discriminate; try reflexivity; try exact EU.
+    destruct op; simpl in *; try discriminate; lia.
+  - apply negb_false_iff, Nat.eqb_eq in W. destruct b; simpl in *; try discriminate; lia.
 Qed.
 
 (* the position one level tighter prints an operand the same way when it is parenthesised
@@ -109,6 +116,76 @@ Proof.
   apply first_tokens. apply wrap_false_level in W. lia.
 Qed.
 
+(* every text starts with a token that can start an expression *)
+Definition opener (ts : list tok) : Prop :=
+  match ts with
+  | KLP :: _ | KNum _ :: _ | KVar _ :: _ | KPlus :: _ | KMinus :: _
+  | KStr _ :: _ | KInst _ :: _ | KLBrace :: _ | KLBrack :: _ => True
+  | _ => False
+  end.
+
+Lemma raw_opener m s : forall k, opener (raw m s ++ k).
+Proof.
+  induction s; intros k; simpl; try exact I;
+    rewrite <- ?app_assoc, ?parens_app;
+    try match goal with |- context [wrap ?mm ?L ?pl ?x] => destruct (wrap mm L pl x); [exact I|] end;
+    auto.
+  destruct neg; exact I.
+Qed.
+
+Lemma pr_opener m L pl x k : opener (pr m L pl x ++ k).
+Proof. unfold pr. rewrite parens_app. destruct (wrap m L pl x); [exact I|apply raw_opener]. Qed.
+
+Lemma opener_not_rp ts : opener ts -> starts_rp ts = false.
+Proof. destruct ts as [|t r]; simpl; [tauto|]. destruct t; simpl; tauto. Qed.
+Lemma opener_not_rbrace ts : opener ts -> starts_rbrace ts = false.
+Proof. destruct ts as [|t r]; simpl; [tauto|]. destruct t; simpl; tauto. Qed.
+
+(* no text starts "identifier :" (so a positional argument is never taken for a keyword) *)
+Definition nocolon (k : list tok) : Prop := match k with KColon :: _ => False | _ => True end.
+
+Lemma usig_nocolon u k : nocolon k -> nocolon (pr_usig u ++ k).
+Proof.
+  intros Hk. destruct u as [[|[v z] us] inv]; unfold pr_usig; simpl.
+  - destruct inv; simpl; [exact Hk|exact I].
+  - exact I.
+Qed.
+
+Lemma var_colon_cons x k : nocolon k -> starts_var_colon (KVar x :: k) = false.
+Proof. destruct k as [|t r]; simpl; [reflexivity|]. destruct t; simpl; tauto. Qed.
+
+Lemma raw_no_var_colon m s : forall k, nocolon k -> starts_var_colon (raw m s ++ k) = false.
+Proof.
+  induction s; intros k Hk; simpl; try reflexivity;
+    rewrite <- ?app_assoc, ?parens_app;
+    try match goal with |- context [wrap ?mm ?L ?pl ?x] => destruct (wrap mm L pl x); [reflexivity|] end;
+    try (match goal with IH : forall k, nocolon k -> starts_var_colon (raw m ?x ++ k) = false |- context [raw m ?x ++ ?kk] =>
+           apply IH end; simpl; try exact I).
+  - destruct k as [|t r]; [reflexivity|]. destruct t; try reflexivity. contradiction.
+  - destruct neg; reflexivity.
+  - destruct op; exact I.
+  - apply usig_nocolon; exact Hk.
+  - destruct op; exact I.
+  - destruct op1; exact I.
+Qed.
+
+Lemma pr_no_var_colon m L pl x k : nocolon k -> starts_var_colon (pr m L pl x ++ k) = false.
+Proof.
+  intros Hk. unfold pr. rewrite parens_app. destruct (wrap m L pl x); [reflexivity|].
+  apply raw_no_var_colon; exact Hk.
+Qed.
+
+Lemma size_pos s : 1 <= size s.
+Proof. destruct s; simpl; lia. Qed.
+
+(* sizes of list members *)
+Lemma size_in l x : In x l -> size x <= fold_right (fun e n => size e + n) 0 l.
+Proof. induction l as [|y l IH]; simpl; [tauto|]. intros [->|H]; [lia|]. specialize (IH H). lia. Qed.
+
+Lemma size_in_snd {K} (l : list (K * sst)) p :
+  In p l -> size (snd p) <= fold_right (fun c n => size (snd c) + n) 0 l.
+Proof. induction l as [|y l IH]; simpl; [tauto|]. intros [->|H]; [lia|]. specialize (IH H). lia. Qed.
+
 (* ------------------------------------------------------------------ the binary levels *)
 Definition isop_of (L : nat) : tok -> option string :=
   match L with 6 => pow_op | 7 => mul_op | _ => add_op end.
@@ -142,6 +219,10 @@ Proof.
   intros HL. unfold binL in HL. destruct s; simpl; try lia.
   destruct HL as [->|[->| ->]]; destruct op; simpl; intros; try discriminate; lia.
 Qed.
+
+Lemma match_var {A} (ts : list tok) (a b : A) v r :
+  ts = KVar v :: r -> (match ts with KVar _ :: _ => a | _ => b end) = a.
+Proof. intros ->. reflexivity. Qed.
 
 (* ------------------------------------------------------------------ the round trip *)
 Section Round.
@@ -221,6 +302,430 @@ Section Round.
     - intros _ _. simpl. destruct neg; exact I.
   Qed.
 
+  (* an operand parsed by the nested parse_expression (behind "[" "{" "," ":" "(" of a call) *)
+  Lemma pe_operand x rest :
+    covered x = true -> S (size x) <= n -> follow 10 rest ->
+    pe (pr m 10 false x ++ rest) = POk (desugar x, rest).
+  Proof.
+    intros C Hsz F. unfold pr. rewrite parens_app. destruct (wrap m 10 false x).
+    - change (KLP :: raw m x ++ KRP :: rest) with (KLP :: raw m x ++ [KRP] ++ rest).
+      rewrite app_assoc. change (KLP :: (raw m x ++ [KRP]) ++ rest) with (raw m (SParen x) ++ rest).
+      apply (Hpe (SParen x)); [exact C|simpl; lia|exact F].
+    - apply Hpe; [exact C|lia|exact F].
+  Qed.
+
+  Lemma nexp_from s L rest :
+    follow L rest -> (L <= 5 -> ends_u m s = true -> nexp rest) -> ends_u m s = true -> nexp rest.
+  Proof.
+    intros F E EU. destruct (le_lt_dec L 5) as [H|H]; [apply E; assumption|].
+    apply (follow_nexp L); [lia|exact F].
+  Qed.
+
+  (* ---------------------------------------------------------------- string and instant literals *)
+  Lemma R_str t : Rspec (SStr t).
+  Proof.
+    intros L rest HLv HL F _. simpl in HLv.
+    apply (lift_up pe 5 L); [exact HLv|reflexivity|intros; lia|intros; lia|exact F].
+  Qed.
+
+  Lemma R_inst t : Rspec (SInst t).
+  Proof.
+    intros L rest HLv HL F _. simpl in HLv.
+    apply (lift_up pe 5 L); [exact HLv|reflexivity|intros; lia|intros; lia|exact F].
+  Qed.
+
+  (* ---------------------------------------------------------------- quantities, ranges *)
+  Lemma R_qty e u : usig_ok u = true -> Ospec e -> Rspec (SQty e u).
+  Proof.
+    intros OK O L rest HLv HL F E. simpl in HLv.
+    assert (NX : nexp rest) by (apply (nexp_from (SQty e u) L); [exact F|exact E|destruct m; reflexivity]).
+    assert (Hhd : exists v r, pr_usig u ++ rest = KVar v :: r).
+    { destruct u as [[|[v z] us] inv]; [discriminate|]. unfold pr_usig. simpl. eauto. }
+    destruct Hhd as (v & r & Hhd).
+    apply (lift_up pe 3 L); [exact HLv| |intros; lia| |exact F].
+    - change (raw m (SQty e u)) with (pr m 2 false e ++ pr_usig u). rewrite <- app_assoc.
+      change (p_level pe 3) with (p_mq pe). unfold p_mq. change (p_unitless pe) with (p_level pe 2).
+      rewrite (O 2 false (pr_usig u ++ rest)); [|lia|rewrite Hhd; simpl; lia|rewrite Hhd; intros; exact I].
+      cbn [pbind]. rewrite (match_var _ _ _ v r Hhd).
+      rewrite (p_usig_ok u rest OK); [reflexivity|].
+      apply (usig_follow_of L); [exact HLv|exact F|exact NX].
+    - intros _ _. change (raw m (SQty e u)) with (pr m 2 false e ++ pr_usig u). rewrite <- app_assoc.
+      apply mid_noterm. apply pr_mid. lia.
+  Qed.
+
+  Lemma R_range a b : Ospec a -> Ospec b -> Rspec (SRange a b).
+  Proof.
+    intros Oa Ob L rest HLv HL F E. simpl in HLv.
+    apply (lift_up pe 4 L); [exact HLv| |intros; lia| |exact F].
+    - change (raw m (SRange a b)) with (pr m 3 false a ++ KDots :: pr m 3 false b). rewrite <- app_assoc.
+      change ((KDots :: pr m 3 false b) ++ rest) with (KDots :: pr m 3 false b ++ rest).
+      change (p_level pe 4) with (p_mr pe). unfold p_mr. change (p_mq pe) with (p_level pe 3).
+      rewrite (Oa 3 false (KDots :: pr m 3 false b ++ rest)); [|lia|simpl; lia|intros; exact I].
+      cbn [pbind].
+      rewrite (Ob 3 false rest); [reflexivity|lia|apply (follow_mono 3 L); [lia|exact F]|].
+      intros W _ EU. apply (nexp_from (SRange a b) L); [exact F|exact E|].
+      destruct m; simpl in *.
+      + apply orb_false_iff in W. destruct W as [W _]. apply negb_false_iff, Nat.leb_le in W.
+        destruct b; simpl in *; try discriminate; try reflexivity; try lia.
+        destruct op; simpl in *; try discriminate; lia.
+      + apply negb_false_iff, Nat.eqb_eq in W. destruct b; simpl in *; try discriminate; lia.
+    - intros _ _. change (raw m (SRange a b)) with (pr m 3 false a ++ KDots :: pr m 3 false b).
+      rewrite <- app_assoc. apply mid_noterm. apply pr_mid. lia.
+  Qed.
+
+  (* ---------------------------------------------------------------- conversions, comparisons *)
+  Lemma R_conv e u : usig_ok u = true -> Ospec e -> Rspec (SConv e u).
+  Proof.
+    intros OK O L rest HLv HL F _. simpl in HLv. assert (L = 10) by lia. subst L.
+    change (raw m (SConv e u)) with (pr m 9 false e ++ KTo :: pr_usig u). rewrite <- app_assoc.
+    change ((KTo :: pr_usig u) ++ rest) with (KTo :: pr_usig u ++ rest).
+    change (p_level pe 10) with (p_expr pe). unfold p_expr. change (p_cmp pe) with (p_level pe 9).
+    rewrite (O 9 false (KTo :: pr_usig u ++ rest)); [|lia|simpl; lia|intros; lia].
+    cbn [pbind]. rewrite (p_usig_ok u rest OK); [reflexivity|].
+    apply (usig_follow_of 10); [lia|exact F|apply (follow_nexp 10); [lia|exact F]].
+  Qed.
+
+  Lemma cmp_tok_level o : tok_level (tok_of_cmp o) = 9.
+  Proof. destruct o; reflexivity. Qed.
+  Lemma cmp_of_tok_of o : cmp_of_tok (tok_of_cmp o) = Some o.
+  Proof. destruct o; reflexivity. Qed.
+  Lemma no_cmp_follow rest L : 9 <= L -> follow L rest ->
+    match rest with [] => True | t :: _ => cmp_of_tok t = None end.
+  Proof. destruct rest as [|t r]; [tauto|]. destruct t; simpl; intros; try reflexivity; lia. Qed.
+
+  Lemma R_cmp1 o a b : Ospec a -> Ospec b -> Rspec (SCmp1 o a b).
+  Proof.
+    intros Oa Ob L rest HLv HL F _. simpl in HLv.
+    apply (lift_up pe 9 L); [exact HLv| |intros; lia|intros; lia|exact F].
+    change (raw m (SCmp1 o a b)) with (pr m 8 false a ++ tok_of_cmp o :: pr m 8 false b). rewrite <- app_assoc.
+    change ((tok_of_cmp o :: pr m 8 false b) ++ rest) with (tok_of_cmp o :: pr m 8 false b ++ rest).
+    change (p_level pe 9) with (p_cmp pe). unfold p_cmp. change (p_sum pe) with (p_level pe 8).
+    rewrite (Oa 8 false (tok_of_cmp o :: pr m 8 false b ++ rest)); [|lia|simpl; rewrite cmp_tok_level; lia|intros; lia].
+    cbn [pbind]. rewrite cmp_of_tok_of.
+    rewrite (Ob 8 false rest); [|lia|apply (follow_mono 8 L); [lia|exact F]|intros; lia].
+    cbn [pbind]. pose proof (no_cmp_follow rest L HLv F) as N.
+    destruct rest as [|t r]; [reflexivity|]. rewrite N. reflexivity.
+  Qed.
+
+  Lemma R_cmp2 o1 o2 a b c : Ospec a -> Ospec b -> Ospec c -> Rspec (SCmp2 o1 o2 a b c).
+  Proof.
+    intros Oa Ob Oc L rest HLv HL F _. simpl in HLv.
+    apply (lift_up pe 9 L); [exact HLv| |intros; lia|intros; lia|exact F].
+    change (raw m (SCmp2 o1 o2 a b c))
+      with (pr m 8 false a ++ tok_of_cmp o1 :: pr m 8 false b ++ tok_of_cmp o2 :: pr m 8 false c).
+    rewrite <- app_assoc.
+    change ((tok_of_cmp o1 :: pr m 8 false b ++ tok_of_cmp o2 :: pr m 8 false c) ++ rest)
+      with (tok_of_cmp o1 :: (pr m 8 false b ++ tok_of_cmp o2 :: pr m 8 false c) ++ rest).
+    rewrite <- app_assoc.
+    change ((tok_of_cmp o2 :: pr m 8 false c) ++ rest) with (tok_of_cmp o2 :: pr m 8 false c ++ rest).
+    change (p_level pe 9) with (p_cmp pe). unfold p_cmp. change (p_sum pe) with (p_level pe 8).
+    rewrite (Oa 8 false); [|lia|simpl; rewrite cmp_tok_level; lia|intros; lia].
+    cbn [pbind]. rewrite cmp_of_tok_of.
+    rewrite (Ob 8 false); [|lia|simpl; rewrite cmp_tok_level; lia|intros; lia].
+    cbn [pbind]. rewrite cmp_of_tok_of.
+    rewrite (Oc 8 false rest); [reflexivity|lia|apply (follow_mono 8 L); [lia|exact F]|intros; lia].
+  Qed.
+
+  (* ---------------------------------------------------------------- intervals *)
+  Lemma R_interval a b :
+    covered a = true -> covered b = true -> S (size a) <= n -> S (size b) <= n -> Rspec (SInterval a b).
+  Proof.
+    intros Ca Cb Sa Sb L rest HLv HL F _. simpl in HLv.
+    apply (lift_up pe 5 L); [exact HLv| |intros; lia|intros; lia|exact F].
+    change (raw m (SInterval a b)) with (KLBrack :: pr m 10 false a ++ KComma :: pr m 10 false b ++ [KRBrack]).
+    change ((KLBrack :: pr m 10 false a ++ KComma :: pr m 10 false b ++ [KRBrack]) ++ rest)
+      with (KLBrack :: (pr m 10 false a ++ KComma :: pr m 10 false b ++ [KRBrack]) ++ rest).
+    rewrite <- app_assoc.
+    change ((KComma :: pr m 10 false b ++ [KRBrack]) ++ rest) with (KComma :: (pr m 10 false b ++ [KRBrack]) ++ rest).
+    rewrite <- app_assoc. change ([KRBrack] ++ rest) with (KRBrack :: rest).
+    change (p_level pe 5 (KLBrack :: ?x)) with (p_interval pe x).
+    unfold p_interval.
+    rewrite (pe_operand a _ Ca Sa); [|simpl; lia]. cbn [pbind].
+    rewrite (pe_operand b _ Cb Sb); [|simpl; lia]. reflexivity.
+  Qed.
+
+  (* ---------------------------------------------------------------- arrays *)
+  Definition entry_of (e : sst) : list tok * ptree := (pr m 10 false e, desugar e).
+
+  Lemma centries_of k l :
+    follow 10 k -> (forall x, In x l -> covered x = true /\ S (size x) <= n) ->
+    centries_ok pe k (map entry_of l).
+  Proof.
+    intros Fk. induction l as [|x l IH]; intros Hl; simpl; [exact I|]. split.
+    - destruct (Hl x (or_introl eq_refl)) as [C Hsz].
+      apply pe_operand; [exact C|exact Hsz|apply cflat_follow; exact Fk].
+    - apply IH. intros y Hy. apply Hl. right. exact Hy.
+  Qed.
+
+  Lemma map_snd_entries l : map snd (map entry_of l) = map desugar l.
+  Proof. rewrite map_map. reflexivity. Qed.
+
+  Lemma R_arr l : (forall x, In x l -> covered x = true /\ S (size x) <= n) -> Rspec (SArr l).
+  Proof.
+    intros Hl L rest HLv HL F _. simpl in HLv.
+    apply (lift_up pe 5 L); [exact HLv| |intros; lia|intros; lia|exact F].
+    change (raw m (SArr l)) with (KLBrace :: join KComma (map (pr m 10 false) l) ++ [KRBrace]).
+    change ((KLBrace :: join KComma (map (pr m 10 false) l) ++ [KRBrace]) ++ rest)
+      with (KLBrace :: (join KComma (map (pr m 10 false) l) ++ [KRBrace]) ++ rest).
+    rewrite <- app_assoc. change ([KRBrace] ++ rest) with (KRBrace :: rest).
+    change (p_level pe 5 (KLBrace :: ?x)) with (p_array pe x).
+    destruct l as [|x l']; [reflexivity|].
+    change (map (pr m 10 false) (x :: l')) with (pr m 10 false x :: map (pr m 10 false) l').
+    rewrite join_cons, <- app_assoc, (cflat_map (pr m 10 false) desugar l').
+    change (map (fun b => (pr m 10 false b, desugar b)) l') with (map entry_of l').
+    unfold p_array. rewrite (opener_not_rbrace _ (pr_opener m 10 false x _)).
+    destruct (Hl x (or_introl eq_refl)) as [Cx Sx].
+    assert (Fk : follow 10 (KRBrace :: rest)) by (simpl; lia).
+    rewrite (pe_operand x _ Cx Sx (cflat_follow _ _ Fk)). cbn [pbind].
+    assert (NC : starts_colon (cflat (map entry_of l') ++ KRBrace :: rest) = false)
+      by (destruct l'; reflexivity).
+    rewrite NC.
+    rewrite (comma_loop_ok pe (KRBrace :: rest) I (map entry_of l')); [| |lia].
+    - cbn [pbind]. rewrite map_snd_entries. reflexivity.
+    - apply centries_of; [exact Fk|]. intros y Hy. apply Hl. right. exact Hy.
+  Qed.
+
+  (* ---------------------------------------------------------------- comprehensions *)
+  Definition clpr (c : option string * sst) : list tok :=
+    match fst c with
+    | Some x => KVar x :: KIn :: pr m 10 false (snd c)
+    | None => guard is_in (pr m 10 false (snd c))
+    end.
+  Definition clause_of (c : option string * sst) : list tok * (option string * ptree) :=
+    (clpr c, (fst c, desugar (snd c))).
+
+  Definition noin (k : list tok) : Prop := match k with KIn :: _ => False | _ => True end.
+
+  Lemma p_clause_cond ts k :
+    starts_var_with is_in ts = false -> ts <> [] -> noin k ->
+    p_clause pe (ts ++ k) = dop (e, ts1) <- pe (ts ++ k); POk ((None, e), ts1).
+  Proof.
+    intros H NE Hk. destruct ts as [|t r]; [congruence|].
+    destruct t; try reflexivity.
+    destruct r as [|t' r']; simpl.
+    - destruct k as [|t'' r'']; [reflexivity|]. destruct t''; try reflexivity. contradiction.
+    - simpl in H. destruct t'; try reflexivity. discriminate.
+  Qed.
+
+  Lemma pr_nonempty L pl x k : pr m L pl x ++ k <> [].
+  Proof.
+    pose proof (pr_opener m L pl x k) as H. destruct (pr m L pl x ++ k); [contradiction|discriminate].
+  Qed.
+
+  Lemma pr_len L pl x : 1 <= List.length (pr m L pl x).
+  Proof.
+    pose proof (pr_opener m L pl x []) as H. rewrite app_nil_r in H.
+    destruct (pr m L pl x); [contradiction|simpl; lia].
+  Qed.
+
+  Lemma clause_ok c k :
+    covered (snd c) = true -> S (S (size (snd c))) <= n -> follow 10 k -> noin k ->
+    p_clause pe (clpr c ++ k) = POk ((fst c, desugar (snd c)), k).
+  Proof.
+    intros C Hsz Fk Nk. destruct c as [[x|] e]; unfold clpr; simpl fst; simpl snd in *.
+    - simpl. rewrite (pe_operand e k C); [reflexivity|lia|exact Fk].
+    - unfold guard. destruct (starts_var_with is_in (pr m 10 false e)) eqn:G.
+      + (* parenthesised: the text is that of (e) *)
+        assert (W : wrap m 10 false e = false).
+        { destruct (wrap m 10 false e) eqn:W; [|reflexivity]. unfold pr in G. rewrite W in G. discriminate. }
+        unfold pr in *. rewrite W in *. unfold parens at 2. unfold parens.
+        change ((KLP :: raw m e ++ [KRP]) ++ k) with (raw m (SParen e) ++ k).
+        assert (HP : forall ts, p_clause pe (KLP :: ts) = dop (e0, ts1) <- pe (KLP :: ts); POk ((None, e0), ts1))
+          by reflexivity.
+        change (raw m (SParen e) ++ k) with (KLP :: (raw m e ++ [KRP]) ++ k) at 1. rewrite HP.
+        change (KLP :: (raw m e ++ [KRP]) ++ k) with (raw m (SParen e) ++ k).
+        rewrite (Hpe (SParen e)); [reflexivity|exact C|simpl; lia|exact Fk].
+      + unfold parens. rewrite p_clause_cond; [|exact G| |exact Nk].
+        * rewrite (pe_operand e k C); [reflexivity|lia|exact Fk].
+        * pose proof (pr_nonempty 10 false e []) as H. rewrite app_nil_r in H. exact H.
+  Qed.
+
+  Lemma clentries_of k cl :
+    follow 10 k -> noin k ->
+    (forall c, In c cl -> covered (snd c) = true /\ S (S (size (snd c))) <= n) ->
+    centries_ok (p_clause pe) k (map clause_of cl).
+  Proof.
+    intros Fk Nk. induction cl as [|c cl IH]; intros Hl; simpl; [exact I|]. split.
+    - destruct (Hl c (or_introl eq_refl)) as [C Hsz].
+      apply clause_ok; [exact C|exact Hsz|apply cflat_follow; exact Fk|].
+      destruct cl; simpl; [exact Nk|exact I].
+    - apply IH. intros y Hy. apply Hl. right. exact Hy.
+  Qed.
+
+  Lemma mk_compr_desugar b cl :
+    mk_compr (desugar b) (map (fun c => (fst c, desugar (snd c))) cl) = desugar (SCompr b cl).
+  Proof.
+    unfold mk_compr. simpl. f_equal; induction cl as [|[[x|] e] cl IH]; simpl; congruence.
+  Qed.
+
+  Lemma R_compr body cl :
+    covered body = true -> S (size body) <= n -> cl <> [] ->
+    (forall c, In c cl -> covered (snd c) = true /\ S (S (size (snd c))) <= n) ->
+    Rspec (SCompr body cl).
+  Proof.
+    intros Cb Sb NE Hl L rest HLv HL F _. simpl in HLv.
+    apply (lift_up pe 5 L); [exact HLv| |intros; lia|intros; lia|exact F].
+    change (raw m (SCompr body cl))
+      with (KLBrace :: pr m 10 false body ++ KColon :: join KComma (map clpr cl) ++ [KRBrace]).
+    change ((KLBrace :: pr m 10 false body ++ KColon :: join KComma (map clpr cl) ++ [KRBrace]) ++ rest)
+      with (KLBrace :: (pr m 10 false body ++ KColon :: join KComma (map clpr cl) ++ [KRBrace]) ++ rest).
+    rewrite <- app_assoc.
+    change ((KColon :: join KComma (map clpr cl) ++ [KRBrace]) ++ rest)
+      with (KColon :: (join KComma (map clpr cl) ++ [KRBrace]) ++ rest).
+    rewrite <- app_assoc. change ([KRBrace] ++ rest) with (KRBrace :: rest).
+    change (p_level pe 5 (KLBrace :: ?x)) with (p_array pe x).
+    destruct cl as [|c cl']; [congruence|].
+    change (map clpr (c :: cl')) with (clpr c :: map clpr cl').
+    rewrite join_cons, <- app_assoc, (cflat_map clpr (fun c => (fst c, desugar (snd c))) cl').
+    change (map (fun b => (clpr b, (fst b, desugar (snd b)))) cl') with (map clause_of cl').
+    unfold p_array. rewrite (opener_not_rbrace _ (pr_opener m 10 false body _)).
+    rewrite (pe_operand body _ Cb Sb); [|simpl; lia]. cbn [pbind].
+    change (starts_colon (KColon :: ?x)) with true. cbv iota. change (tl (KColon :: ?x)) with x.
+    assert (Fk : follow 10 (KRBrace :: rest)) by (simpl; lia).
+    destruct (Hl c (or_introl eq_refl)) as [Cc Sc].
+    rewrite (clause_ok c _ Cc Sc (cflat_follow _ _ Fk)); [|destruct cl'; simpl; exact I].
+    cbn [pbind].
+    rewrite (comma_loop_ok (p_clause pe) (KRBrace :: rest) I (map clause_of cl')); [| |lia].
+    - cbn [pbind]. rewrite <- mk_compr_desugar. simpl map.
+      rewrite map_map. reflexivity.
+    - apply clentries_of; [exact Fk|exact I|]. intros y Hy. apply Hl. right. exact Hy.
+  Qed.
+
+  (* ---------------------------------------------------------------- function calls *)
+  Definition kwpr (p : string * sst) : list tok := KVar (fst p) :: KColon :: pr m 10 false (snd p).
+  Definition kentry_of (p : string * sst) : string * list tok * ptree :=
+    (fst p, pr m 10 false (snd p), desugar (snd p)).
+
+  Lemma kflat_map kw :
+    flat_map (fun y => KComma :: y) (map kwpr kw) = kflat (map kentry_of kw).
+  Proof. induction kw as [|p kw IH]; simpl; [reflexivity|]. rewrite IH. reflexivity. Qed.
+
+  Lemma kentries_of r kw :
+    (forall p, In p kw -> covered (snd p) = true /\ S (size (snd p)) <= n) ->
+    kentries_ok pe (KRP :: r) (map kentry_of kw).
+  Proof.
+    induction kw as [|p kw IH]; intros Hl; simpl; [exact I|]. split.
+    - destruct (Hl p (or_introl eq_refl)) as [C Hsz].
+      apply pe_operand; [exact C|exact Hsz|apply kflat_follow].
+    - apply IH. intros y Hy. apply Hl. right. exact Hy.
+  Qed.
+
+  (* the keyword part: "k : v , k : v )" *)
+  Definition kwtext (kw : list (string * sst)) : list tok :=
+    match kw with [] => [] | p :: more => kwpr p ++ kflat (map kentry_of more) end.
+
+  Lemma kw_phase kw r fuel :
+    (forall p, In p kw -> covered (snd p) = true /\ S (size (snd p)) <= n) ->
+    List.length (kwtext kw ++ KRP :: r) < fuel ->
+    kw_args pe fuel true (kwtext kw ++ KRP :: r)
+    = POk (map (fun p => (fst p, desugar (snd p))) kw, KRP :: r).
+  Proof.
+    intros Hl Hf. destruct fuel as [|f]; [lia|].
+    destruct kw as [|p more]; [reflexivity|].
+    unfold kwtext, kwpr in *. cbn [app] in *. rewrite <- app_assoc in *.
+    simpl kw_args.
+    destruct (Hl p (or_introl eq_refl)) as [C Hsz].
+    rewrite (pe_operand (snd p) _ C Hsz (kflat_follow _ _)). cbn [pbind].
+    rewrite (kw_tail pe (map kentry_of more) r).
+    - rewrite map_map. reflexivity.
+    - apply kentries_of. intros y Hy. apply Hl. right. exact Hy.
+    - simpl in Hf. rewrite app_length in Hf. lia.
+  Qed.
+
+  Lemma pentries_of k l :
+    follow 10 k -> nocolon k ->
+    (forall x, In x l -> covered x = true /\ S (size x) <= n) ->
+    pentries_ok pe k (map entry_of l).
+  Proof.
+    intros Fk Nk. induction l as [|x l IH]; intros Hl; simpl; [exact I|]. split; [|split].
+    - destruct (Hl x (or_introl eq_refl)) as [C Hsz].
+      apply pe_operand; [exact C|exact Hsz|apply cflat_follow; exact Fk].
+    - apply pr_no_var_colon. destruct l; simpl; [exact Nk|exact I].
+    - apply IH. intros y Hy. apply Hl. right. exact Hy.
+  Qed.
+
+  Lemma call_text args kw :
+    join KComma (map (pr m 10 false) args ++ map kwpr kw)
+    = match args with
+      | [] => kwtext kw
+      | a :: more =>
+          pr m 10 false a ++ cflat (map entry_of more)
+            ++ match kw with [] => [] | _ => KComma :: kwtext kw end
+      end.
+  Proof.
+    destruct args as [|a more].
+    - simpl. destruct kw as [|p kw']; [reflexivity|].
+      change (map kwpr (p :: kw')) with (kwpr p :: map kwpr kw').
+      rewrite join_cons, kflat_map. reflexivity.
+    - change (map (pr m 10 false) (a :: more) ++ map kwpr kw)
+        with (pr m 10 false a :: (map (pr m 10 false) more ++ map kwpr kw)).
+      rewrite join_cons, flat_map_app, (cflat_map (pr m 10 false) desugar more).
+      change (map (fun b => (pr m 10 false b, desugar b)) more) with (map entry_of more).
+      destruct kw as [|p kw']; [reflexivity|].
+      change (map kwpr (p :: kw')) with (kwpr p :: map kwpr kw').
+      simpl flat_map. rewrite kflat_map. reflexivity.
+  Qed.
+
+  Lemma R_call f args kw :
+    (forall x, In x args -> covered x = true /\ S (size x) <= n) ->
+    (forall p, In p kw -> covered (snd p) = true /\ S (size (snd p)) <= n) ->
+    Rspec (SCall f args kw).
+  Proof.
+    intros Ha Hk L rest _ HL F _.
+    apply (lift_up pe 0 L); [lia| |intros; exact I|intros; exact I|exact F].
+    change (raw m (SCall f args kw))
+      with (KVar f :: KLP :: join KComma (map (pr m 10 false) args ++ map kwpr kw) ++ [KRP]).
+    change ((KVar f :: KLP :: join KComma (map (pr m 10 false) args ++ map kwpr kw) ++ [KRP]) ++ rest)
+      with (KVar f :: KLP :: (join KComma (map (pr m 10 false) args ++ map kwpr kw) ++ [KRP]) ++ rest).
+    rewrite <- app_assoc. change ([KRP] ++ rest) with (KRP :: rest).
+    change (p_level pe 0 (KVar f :: KLP :: ?x)) with (p_call pe f x).
+    rewrite call_text. unfold p_call.
+    destruct args as [|a more].
+    - (* no positional argument *)
+      assert (HP : pos_args pe (S (List.length (kwtext kw ++ KRP :: rest))) true (kwtext kw ++ KRP :: rest)
+                   = POk ([], kwtext kw ++ KRP :: rest)).
+      { destruct kw as [|p kw']; reflexivity. }
+      rewrite HP. cbn [pbind]. rewrite (kw_phase kw rest _ Hk); [reflexivity|lia].
+    - destruct (Ha a (or_introl eq_refl)) as [Ca Sa].
+      assert (Hmore : forall x, In x more -> covered x = true /\ S (size x) <= n)
+        by (intros x Hx; apply Ha; right; exact Hx).
+      rewrite <- !app_assoc.
+      destruct kw as [|p kw'].
+      + (* positional arguments only *)
+        cbn [app].
+        set (T := cflat (map entry_of more) ++ KRP :: rest).
+        assert (FT : follow 10 T) by (apply cflat_follow; simpl; lia).
+        assert (NT : nocolon T) by (unfold T; destruct more; exact I).
+        assert (HP : pos_args pe (S (List.length (pr m 10 false a ++ T))) true (pr m 10 false a ++ T)
+                     = POk (desugar a :: map desugar more, KRP :: rest)).
+        { simpl pos_args. rewrite (opener_not_rp _ (pr_opener m 10 false a T)).
+          rewrite (pr_no_var_colon m 10 false a T NT).
+          rewrite (pe_operand a T Ca Sa FT). cbn [pbind]. unfold T.
+          rewrite (pos_tail_rp pe (map entry_of more) rest).
+          - rewrite map_snd_entries. reflexivity.
+          - apply pentries_of; [simpl; lia|exact I|exact Hmore].
+          - pose proof (pr_len 10 false a). rewrite (app_length (pr m 10 false a)). fold T. lia. }
+        rewrite HP. cbn [pbind]. reflexivity.
+      + (* positional, then keyword arguments *)
+        set (K := kwtext (p :: kw') ++ KRP :: rest).
+        assert (HK : K = KVar (fst p) :: KColon :: (pr m 10 false (snd p) ++ kflat (map kentry_of kw') ++ KRP :: rest)).
+        { unfold K, kwtext, kwpr. cbn [app]. rewrite <- app_assoc. reflexivity. }
+        change ((KComma :: kwtext (p :: kw')) ++ KRP :: rest) with (KComma :: K).
+        set (T := cflat (map entry_of more) ++ KComma :: K).
+        assert (FT : follow 10 T) by (apply cflat_follow; simpl; lia).
+        assert (NT : nocolon T) by (unfold T; destruct more; exact I).
+        assert (HP : pos_args pe (S (List.length (pr m 10 false a ++ T))) true (pr m 10 false a ++ T)
+                     = POk (desugar a :: map desugar more, K)).
+        { simpl pos_args. rewrite (opener_not_rp _ (pr_opener m 10 false a T)).
+          rewrite (pr_no_var_colon m 10 false a T NT).
+          rewrite (pe_operand a T Ca Sa FT). cbn [pbind]. unfold T. rewrite HK.
+          rewrite (pos_tail_kw pe (map entry_of more)).
+          - rewrite map_snd_entries. reflexivity.
+          - apply pentries_of; [simpl; lia|exact I|exact Hmore].
+          - pose proof (pr_len 10 false a). rewrite (app_length (pr m 10 false a)). rewrite <- HK. fold T. lia. }
+        rewrite HP. cbn [pbind]. unfold K. rewrite (kw_phase (p :: kw') rest _ Hk); [reflexivity|lia].
+  Qed.
+
   (* ---------------------------------------------------------------- the binary levels *)
   Section Step.
     Variable k : nat.
@@ -286,9 +791,8 @@ Section Round.
       induction s; intros C Hsz HS HW items rest F Hok E;
         try (apply BASE; [assumption..|reflexivity|assumption|assumption|assumption]).
       (* SBin *)
-      destruct (is_binL Lb (SBin op s1 s2)) eqn:EB;
-        [|apply BASE; assumption].
-      simpl in EB. apply Nat.eqb_eq in EB.
+      destruct (Nat.eq_dec (binlevel_of op) Lb) as [EB|NEB];
+        [|apply BASE; try assumption; simpl; apply Nat.eqb_neq; exact NEB].
       simpl in C. apply andb_true_iff in C. destruct C as [C1 C2].
       simpl in Hsz.
       (* the right operand, as an item in front of the remaining ones *)
@@ -296,37 +800,32 @@ Section Round.
       { simpl. split; [rewrite (isop_tok Lb op HLb EB); congruence|]. split; [|exact Hok].
         apply (operand_in_chain Lb s2 false items rest HLb); [lia|exact C2|exact F|exact Hok|].
         intros W HL6 EU. apply E; [exact HL6|].
-        subst Lb. destruct op; simpl in EB; try discriminate. clear - W EU.
-        destruct m; simpl in *.
-        - apply orb_false_iff in W. destruct W as [W _]. apply negb_false_iff, Nat.leb_le in W.
-          destruct s2; simpl in *; try discriminate; try lia; try reflexivity.
-          + destruct op; simpl in *; try discriminate; lia.
-          + exact EU.
-        - apply negb_false_iff, Nat.eqb_eq in W. destruct s2; simpl in *; try discriminate; lia. }
+        rewrite HL6 in EB, W. destruct op; simpl in EB; try discriminate.
+        apply ends_u_pow_right; assumption. }
       assert (Hfold : fold_items (isop_of Lb) (item_of Lb (op, s2) :: items) (desugar s1)
                       = fold_items (isop_of Lb) items (desugar (SBin op s1 s2))).
       { unfold fold_items. simpl. rewrite (isop_tok Lb op HLb EB). reflexivity. }
       assert (Htext : raw m (SBin op s1 s2) ++ flat_items items ++ rest
                       = parens (wrap m Lb (Lb =? 6) s1) (raw m s1) ++ flat_items (item_of Lb (op, s2) :: items) ++ rest).
-      { simpl. rewrite (binlevel_powleft op Lb EB), EB. rewrite <- app_assoc. simpl.
-        unfold pr. rewrite <- app_assoc. reflexivity. }
+      { simpl. rewrite (binlevel_powleft op Lb EB), EB. unfold pr.
+        rewrite <- ?app_assoc. simpl. rewrite <- ?app_assoc. reflexivity. }
       rewrite Htext, <- Hfold.
       destruct (wrap m Lb (Lb =? 6) s1) eqn:W1.
       - (* parenthesised left operand: it is the head of the chain *)
         simpl parens. apply binlevel_correct; [apply noop_of; assumption| |exact Hitem].
-        rewrite <- app_assoc. simpl.
         destruct (items_head _ _ _ _ Hitem) as (t & k' & Heq & Hop); [congruence|].
+        rewrite Heq. cbn [app]. rewrite <- app_assoc. cbn [app].
         apply paren_parse; [exact C1|lia| |].
         + destruct HLb as [->|[->| ->]]; simpl; lia.
-        + rewrite Heq. simpl. rewrite (isop_level Lb t HLb Hop). destruct HLb as [->|[->| ->]]; simpl; lia.
+        + simpl. rewrite (isop_level Lb t HLb Hop). destruct HLb as [->|[->| ->]]; simpl; lia.
       - (* unparenthesised: go down the spine *)
-        simpl parens. apply IHs1; [exact C1|lia|right; lia|right; exact W1|exact F|exact Hitem|].
-        intros HL6 EU. subst Lb. simpl in W1. rewrite (wrap_false_endsu _ _ _ W1) in EU. discriminate.
+        simpl parens. apply IHs1; [exact C1|lia|right; lia|right; reflexivity|exact F|exact Hitem|].
+        intros HL6 EU. rewrite HL6 in W1. simpl Nat.eqb in W1. rewrite (wrap_false_endsu _ _ _ W1) in EU. discriminate.
     Qed.
 
     Lemma R_bin o a b : covered (SBin o a b) = true -> size (SBin o a b) <= S k -> Rspec (SBin o a b).
     Proof.
-      intros C S L rest HLv HL F _.
+      intros C Hsz L rest HLv HL F _.
       assert (HLb : binL (binlevel_of o)) by (destruct o; simpl; unfold binL; lia).
       assert (Hlv : level (SBin o a b) = binlevel_of o) by (destruct o; reflexivity).
       apply (lift_up pe (binlevel_of o) L); [lia| |intros; destruct o; simpl in *; lia|intros; destruct o; simpl in *; lia|exact F].
@@ -351,10 +850,39 @@ Section Round.
       destruct s; simpl in C; try discriminate.
       + apply R_num.
       + apply R_var.
+      + apply R_str.
+      + apply R_inst.
       + apply R_paren; [exact C|simpl in Hsz; lia].
       + apply R_sign. apply (O_k k Hk' IHk); [simpl in Hsz; lia|exact C].
       + apply R_fact. apply (O_k k Hk' IHk); [simpl in Hsz; lia|exact C].
       + apply (R_bin k Hk' IHk); assumption.
+      + apply andb_true_iff in C. destruct C as [C1 C2]. simpl in Hsz.
+        apply R_range; apply (O_k k Hk' IHk); (lia || assumption).
+      + apply andb_true_iff in C. destruct C as [C1 C2]. simpl in Hsz.
+        apply R_interval; (lia || assumption).
+      + apply andb_true_iff in C. destruct C as [C1 C2]. simpl in Hsz. apply R_call.
+        * intros x Hx. split; [rewrite forallb_forall in C1; apply C1; exact Hx|].
+          pose proof (size_in args x Hx). lia.
+        * intros p Hp. split; [rewrite forallb_forall in C2; apply (C2 p Hp)|].
+          pose proof (size_in_snd kw p Hp). lia.
+      + apply R_arr. intros x Hx. split.
+        * rewrite forallb_forall in C. apply C. exact Hx.
+        * simpl in Hsz. pose proof (size_in l x Hx). lia.
+      + apply andb_true_iff in C. destruct C as [C C3]. apply andb_true_iff in C. destruct C as [C1 C2].
+        simpl in Hsz. pose proof (size_pos s) as Hpos. apply R_compr.
+        * exact C1.
+        * lia.
+        * destruct cl; [discriminate|congruence].
+        * intros c Hc. split; [rewrite forallb_forall in C3; apply (C3 c Hc)|].
+          pose proof (size_in_snd cl c Hc). lia.
+      + apply andb_true_iff in C. destruct C as [C1 C2]. simpl in Hsz.
+        apply R_qty; [exact C2|]. apply (O_k k Hk' IHk); (lia || assumption).
+      + apply andb_true_iff in C. destruct C as [C1 C2]. simpl in Hsz.
+        apply R_conv; [exact C2|]. apply (O_k k Hk' IHk); (lia || assumption).
+      + apply andb_true_iff in C. destruct C as [C1 C2]. simpl in Hsz.
+        apply R_cmp1; apply (O_k k Hk' IHk); (lia || assumption).
+      + apply andb_true_iff in C. destruct C as [C C3]. apply andb_true_iff in C. destruct C as [C1 C2].
+        simpl in Hsz. apply R_cmp2; apply (O_k k Hk' IHk); (lia || assumption).
   Qed.
 End Round.
 
@@ -368,14 +896,126 @@ Proof.
     apply (R_all m (parse_expression f) f IH (S f) s Hsz (le_n _) C 10 rest); [apply level_le_10|lia|exact F|intros; lia].
 Qed.
 
-Lemma size_le_raw m s : covered s = true -> size s <= List.length (raw m s).
+Lemma len_parens b ts : List.length ts <= List.length (parens b ts).
+Proof. destruct b; simpl; rewrite ?app_length; simpl; lia. Qed.
+
+Lemma len_usig u : usig_ok u = true -> 1 <= List.length (pr_usig u).
 Proof.
-  induction s; simpl; intros C; try discriminate; try lia.
-  - rewrite app_length. simpl. specialize (IHs C). lia.
-  - specialize (IHs C). destruct (wrap m 1 false s); simpl; rewrite ?app_length; simpl; lia.
-  - specialize (IHs C). rewrite app_length. destruct (wrap m 0 false s); simpl; rewrite ?app_length; simpl; lia.
-  - apply andb_true_iff in C. destruct C as [C1 C2]. specialize (IHs1 C1). specialize (IHs2 C2).
+  destruct u as [[|[v z] us] inv]; [discriminate|]. intros _. unfold pr_usig. simpl. lia.
+Qed.
+
+Ltac len_parens_tac :=
+  repeat match goal with
+         | |- context [List.length (parens ?b ?ts)] =>
+             let H := fresh "HP" in
+             pose proof (len_parens b ts) as H;
+             let np := fresh "np" in
+             set (np := List.length (parens b ts)) in *; clearbody np
+         end.
+
+Lemma sst_size_ind (P : sst -> Prop) :
+  (forall s, (forall x, size x < size s -> P x) -> P s) -> forall s, P s.
+Proof.
+  intros H. assert (G : forall k s, size s <= k -> P s).
+  { induction k as [|k IH]; intros s Hs.
+    - pose proof (size_pos s). lia.
+    - apply H. intros x Hx. apply IH. lia. }
+  intros s. apply (G (size s)). lia.
+Qed.
+
+(* total length of a list of texts, and of their comma-separated concatenation *)
+Definition total (ls : list (list tok)) : nat := fold_right (fun x k => List.length x + k) 0 ls.
+
+Lemma total_app a b : total (a ++ b) = total a + total b.
+Proof. induction a as [|x a IH]; simpl; [reflexivity|]. rewrite IH. lia. Qed.
+
+Lemma total_flat sep ls : total ls <= List.length (flat_map (fun y => sep :: y) ls).
+Proof. induction ls as [|x ls IH]; simpl; [lia|]. rewrite app_length. lia. Qed.
+
+Lemma join_len sep ls : total ls <= List.length (join sep ls).
+Proof.
+  destruct ls as [|x ls]; [simpl; lia|]. rewrite join_cons, app_length. simpl.
+  pose proof (total_flat sep ls). lia.
+Qed.
+
+Lemma total_map {B} (g : B -> nat) (f : B -> list tok) l :
+  (forall x, In x l -> g x <= List.length (f x)) ->
+  fold_right (fun x k => g x + k) 0 l <= total (map f l).
+Proof.
+  induction l as [|x l IH]; intros H; simpl; [lia|].
+  pose proof (H x (or_introl eq_refl)). assert (forall y, In y l -> g y <= List.length (f y)) by (intros; apply H; right; assumption).
+  specialize (IH H1). lia.
+Qed.
+
+Lemma size_le_raw m : forall s, covered s = true -> size s <= List.length (raw m s).
+Proof.
+  apply (sst_size_ind (fun s => covered s = true -> size s <= List.length (raw m s))).
+  intros s IH C.
+  assert (IHp : forall x, size x < size s -> covered x = true -> size x <= List.length (parens (wrap m 10 false x) (raw m x))).
+  { intros x Hx Cx. pose proof (IH x Hx Cx). pose proof (len_parens (wrap m 10 false x) (raw m x)). lia. }
+  destruct s; simpl in C |- *; try lia.
+  - pose proof (IH s ltac:(simpl; lia) C). rewrite app_length. simpl. lia.
+  - pose proof (IH s ltac:(simpl; lia) C). len_parens_tac. lia.
+  - pose proof (IH s ltac:(simpl; lia) C). rewrite app_length. simpl. len_parens_tac. lia.
+  - apply andb_true_iff in C. destruct C as [C1 C2].
+    pose proof (IH s1 ltac:(simpl; lia) C1). pose proof (IH s2 ltac:(simpl; lia) C2).
+    rewrite app_length. simpl. len_parens_tac. lia.
+  - apply andb_true_iff in C. destruct C as [C1 C2].
+    pose proof (IH s1 ltac:(simpl; lia) C1). pose proof (IH s2 ltac:(simpl; lia) C2).
+    rewrite app_length. simpl. len_parens_tac. lia.
+  - apply andb_true_iff in C. destruct C as [C1 C2].
+    pose proof (IH s1 ltac:(simpl; lia) C1). pose proof (IH s2 ltac:(simpl; lia) C2).
+    rewrite !app_length. simpl. rewrite !app_length. simpl. len_parens_tac. lia.
+  - (* SCall *)
+    apply andb_true_iff in C. destruct C as [C1 C2].
     rewrite app_length. simpl.
-    destruct (wrap m (binlevel_of op) _ s1), (wrap m (pred (binlevel_of op)) false s2);
-      simpl; rewrite ?app_length; simpl; lia.
+    match goal with |- context [join KComma ?ls] => pose proof (join_len KComma ls) as HJ end.
+    rewrite total_app in HJ.
+    pose proof (total_map size (fun e => parens (wrap m 10 false e) (raw m e)) args) as HA.
+    pose proof (total_map (fun p => size (snd p))
+                  (fun p : string * sst => KVar (fst p) :: KColon :: parens (wrap m 10 false (snd p)) (raw m (snd p))) kw) as HK.
+    assert (G1 : forall x, In x args -> size x <= List.length (parens (wrap m 10 false x) (raw m x))).
+    { intros x Hx. apply IHp; [pose proof (size_in args x Hx); simpl; lia|].
+      rewrite forallb_forall in C1. apply C1. exact Hx. }
+    assert (G2 : forall p, In p kw -> size (snd p) <=
+              List.length (KVar (fst p) :: KColon :: parens (wrap m 10 false (snd p)) (raw m (snd p)))).
+    { intros p Hp. simpl.
+      assert (size (snd p) <= List.length (parens (wrap m 10 false (snd p)) (raw m (snd p)))).
+      { apply IHp; [pose proof (size_in_snd kw p Hp); simpl; lia|].
+        rewrite forallb_forall in C2. apply (C2 p Hp). }
+      lia. }
+    specialize (HA G1). specialize (HK G2). lia.
+  - (* SArr *)
+    rewrite app_length. simpl.
+    match goal with |- context [join KComma ?ls] => pose proof (join_len KComma ls) as HJ end.
+    pose proof (total_map size (fun e => parens (wrap m 10 false e) (raw m e)) l) as HA.
+    assert (G1 : forall x, In x l -> size x <= List.length (parens (wrap m 10 false x) (raw m x))).
+    { intros x Hx. apply IHp; [pose proof (size_in l x Hx); simpl; lia|].
+      rewrite forallb_forall in C. apply C. exact Hx. }
+    specialize (HA G1). lia.
+  - (* SCompr *)
+    apply andb_true_iff in C. destruct C as [C C3]. apply andb_true_iff in C. destruct C as [C1 C2].
+    pose proof (IHp s ltac:(simpl; lia) C1) as Hb.
+    rewrite !app_length. simpl. rewrite !app_length. simpl.
+    match goal with |- context [join KComma ?ls] => pose proof (join_len KComma ls) as HJ end.
+    match type of HJ with context [map ?f cl] =>
+      pose proof (total_map (fun c : option string * sst => size (snd c)) f cl) as HA end.
+    assert (G2 : forall c, In c cl -> covered (snd c) = true /\ size (snd c) < size (SCompr s cl)).
+    { intros c Hc. split; [rewrite forallb_forall in C3; apply (C3 c Hc)|].
+      pose proof (size_in_snd cl c Hc). simpl. lia. }
+    match type of HA with (?X -> _) => assert (G3 : X) end.
+    { intros c Hc. destruct (G2 c Hc) as [Cc Sc]. pose proof (IHp (snd c) Sc Cc) as Hc'.
+      destruct (fst c); [simpl; lia|]. unfold guard.
+      match goal with |- context [parens ?b (parens ?b2 ?ts)] => pose proof (len_parens b (parens b2 ts)) end. lia. }
+    specialize (HA G3). lia.
+  - apply andb_true_iff in C. destruct C as [C1 C2].
+    pose proof (IH s ltac:(simpl; lia) C1). rewrite app_length. pose proof (len_usig u C2). len_parens_tac. lia.
+  - apply andb_true_iff in C. destruct C as [C1 C2].
+    pose proof (IH s ltac:(simpl; lia) C1). rewrite app_length. simpl. len_parens_tac. lia.
+  - apply andb_true_iff in C. destruct C as [C1 C2].
+    pose proof (IH s1 ltac:(simpl; lia) C1). pose proof (IH s2 ltac:(simpl; lia) C2).
+    rewrite app_length. simpl. len_parens_tac. lia.
+  - apply andb_true_iff in C. destruct C as [C C3]. apply andb_true_iff in C. destruct C as [C1 C2].
+    pose proof (IH s1 ltac:(simpl; lia) C1). pose proof (IH s2 ltac:(simpl; lia) C2). pose proof (IH s3 ltac:(simpl; lia) C3).
+    rewrite !app_length. simpl. rewrite !app_length. simpl. len_parens_tac. lia.
 Qed.
